@@ -19,11 +19,12 @@
 EXTENDS Naturals, Sequences, FiniteSets, TLC
 
 AMP == 1  LT == 2  GT == 3  QUOT == 4  APOS == 5  CDEND == 6  ENT == 7  CDOPEN == 8  PLAIN == 9  SP == 10
-NBSP == 11  ASTRAL == 12  C1 == 13  TAB == 14  LF == 15  CR == 16  ELEM == 17  PCT == 18  FMT == 19
+NBSP == 11  ASTRAL == 12  C1 == 13  TAB == 14  LF == 15  CR == 16  ELEM == 17  PCT == 18  FMT == 19  XESC == 20
 \* CDEND = "]]>"   ENT = "&amp;" "&#60;" ... (a well-formed reference)   CDOPEN = "<![CDATA["   C1 = U+0080..U+009F   ELEM = a complete element such as "<b/>"
 \* PCT = a percent-escape such as "%20" (hyperlink addresses: must come back as stored after save and re-open)
 \* FMT = a str.format / printf field ("{0}", "%s"): a template layer must store it, not interpret it
-Classes == 1..19
+\* XESC = seven characters that look like an OOXML character escape ("_x0041_"): the caller's data, never decoded
+Classes == 1..20
 Cls(tok) == tok % 32
 
 Unset == [set |-> FALSE, v |-> <<>>]
